@@ -146,7 +146,8 @@ def step (s : St) (f : List String) (impl : String) : LineOut St :=
         match s.base.prev.members.find? (fun mem => alookup st mem.1 != some mem.2.2) with
         | some mem => some ("localstate-missing-status-time", s!"LocalState does not carry status time {mem.2.2} of listed member {mem.1} (it carries {alookup st mem.1})")
         | none =>
-          match (s.base.prev.members.filter (·.2.1 == .left)).find? (fun mem => !lf.contains mem.1) with
+          -- (a left list holding only the empty name prints like the empty list: such a member is not judged here)
+          match (s.base.prev.members.filter (fun mem => mem.2.1 == .left && mem.1 != "")).find? (fun mem => !lf.contains mem.1) with
           | some mem => some ("localstate-missing-left", s!"LocalState does not list left member {mem.1} in LeftMembers")
           | none =>
             -- … and ONLY those: a member that is alive / leaving / failed must travel as a join time, or the receiver
